@@ -22,7 +22,10 @@ ENGINES = [
 ]
 
 NOTES = ("All checks: bin/check <id> --tier quick|thorough; exit 0 held / 1 VIOLATION / 2 ERROR (machinery failure, never a verdict). "
-         "VERIF_SEED seeds every random choice. Known findings: /verif/known_findings.json. See DESIGN.md.")
+         "VERIF_SEED seeds every random choice. Known findings: /verif/known_findings.json. See DESIGN.md. "
+         "Supplementary, not tied to a listed property: `bin/check dbapi` (spec/DbApi.tla: the programmatic database interface, DESIGN 12.6), "
+         "`bin/check selftest` (the binding demonstration), `bin/mutants` (seeded changes must be caught), `bin/benign` (changes under which the "
+         "properties hold must leave every check quiet, DESIGN 12.7).")
 
 NOT_APPLICABLE = {}
 
@@ -58,10 +61,10 @@ CHECKS["C08"] = {
 }
 CHECKS["C09"] = {
     "engine": "tlc-spec", "category": "model_checking", "design_ref": "6/C09, A.2",
-    "technique": "TLA+ MustReject/MustAccept enumerated exhaustively by TLC per profile; every (profile, subject) pair replayed into "
+    "technique": "TLA+ MustReject/MustAccept (mandatory attributes counted per list entry) enumerated exhaustively by TLC per profile; every (profile, subject) pair replayed into "
                  "config.ParseRDNSequence + config.Validate; observations trace-validated by TLC",
     "text": "Every profile (attribute lists up to length 3 quick / 4 thorough over {CN,O,C,1.2.3.4} x optional x allowOther, plus 'no list') is an "
-            "initial state of MCSubject.tla; TLC checks the two sentences never contradict, decide every subject when allowOther is false, and "
+            "initial state of MCSubject.tla; TLC checks the two sentences never contradict, decide every subject when allowOther is false and no type repeats, and "
             "that the recursive operators equal their declarative definitions, and writes a verdict row over all subjects (length <= 4 / 5 incl. a "
             "foreign attribute): 0.9 M pairs quick, 36.6 M thorough. The driver runs the real Validate on every pair; silent pairs are only "
             "checked for panics. A sample and every mismatch are judged again by TLC with explicit profile and subject.",
@@ -159,7 +162,7 @@ CHECKS["C03"] = {
 }
 CHECKS["C04"] = {
     "engine": "tlc-spec", "category": "exploration", "design_ref": "6/C04, 3 (Calendar.tla)",
-    "technique": "Calendar.tla (Gregorian arithmetic, AddDate normalisation and clamping, zone shift) + ConfigModel!ValidityComplaints as oracle over decoded certificates",
+    "technique": "Calendar.tla (Gregorian arithmetic, normalised sum of the civil fields - the clamped alternative is named but not accepted -, zone shift) + ConfigModel!ValidityComplaints as oracle over decoded certificates",
     "text": "Every month/day of leap and non-leap years and the years around the UTCTime/GeneralizedTime boundary as from and until, the duration grid "
             "(years x months x days, pairwise different), the 7x7 combinations of validity shapes in certificate and profile, under seven fixed-offset "
             "local zones from -12:00 to +14:00. notBefore without `from` must lie between the clock readings around the run.",
